@@ -30,7 +30,7 @@ def shards(tier):
 
 def gates(c, tier):
     need = ["int-write", "int-read-padded", "int-read-random", "enum", "tag", "tag-multioctet", "len-long", "bool", "octets", "nest",
-            "child-refuses-sibling", "reader-op-sequences", "writable-input", "truncated-with-header", "header-truncations", "repo-tests-under-contracts:runs", "contract:_pack_asn1_integer", "contract:_read_asn1_integer", "contract:_pack_asn1",
+            "child-refuses-sibling", "reader-op-sequences", "writable-input", "truncated-with-header", "header-truncations", "writer-interleavings", "failed-read-keeps-position", "repo-tests-under-contracts:runs", "contract:_pack_asn1_integer", "contract:_read_asn1_integer", "contract:_pack_asn1",
             "contract:_read_asn1_header"]  # the four primitives the repository's tests also name; the two octet-number helpers are
     # checked when present (evidence) but may be renamed by a refactor without making this check inconclusive
     return [f"never exercised: {k}" for k in need if c.get(k, 0) == 0]
@@ -157,6 +157,74 @@ def chk_header_truncations(r):
             except Exception as e:
                 out.append((f"truncated-header-exc:{type(e).__name__}", f"header {hdr.hex()} cut after {cut} octets: {type(e).__name__}: {e}"))
                 return out
+    return out
+
+
+def chk_writer_interleaving(r):
+    """Several child writers of one parent open at the same time, filled in random order, parent written in between.
+    Reference semantics (ASN1Writer docs): each child collects its own content and is appended to its parent, as one TLV,
+    when its with-block ends; a child that is never closed contributes nothing."""
+    out = []
+    root = A.ASN1Writer()
+    open_children = []  # (writer object, context manager, reference record)
+    ref_root = []  # reference: list of encoded TLVs in the order they reach the parent
+    n_ops = r.choice([4, 8, 14])
+    try:
+        for _ in range(n_ops):
+            x = r.random()
+            if x < 0.3 and len(open_children) < 4:
+                kind = r.choice(["seq", "set"])
+                tag = None
+                if r.random() < 0.3:
+                    tag = (r.choice([1, 2]), r.choice([0, 5, 31, 300]), True)
+                w = (root.push_sequence if kind == "seq" else root.push_set)(A.ASN1Tag(A.TagClass(tag[0]), tag[1], tag[2]) if tag else None)
+                w.__enter__()
+                open_children.append((w, {"kind": kind, "tag": tag, "content": []}))
+            elif x < 0.6 and open_children:
+                w, rec = r.choice(open_children)
+                v = r.randbytes(r.choice([0, 1, 3]))
+                w.write_octet_string(v)
+                rec["content"].append(_tlv(0, False, 4, v))
+            elif x < 0.75:
+                v = r.randrange(-300, 300)
+                root.write_integer(v)
+                ref_root.append(_tlv(0, False, 2, ber.int_content(v)))
+            elif open_children:
+                k = r.randrange(len(open_children))
+                w, rec = open_children.pop(k)
+                w.__exit__(None, None, None)
+                body = b"".join(rec["content"])
+                t = rec["tag"] or (0, 16 if rec["kind"] == "seq" else 17, True)
+                ref_root.append(_tlv(t[0], True, t[1], body))
+        # children left open contribute nothing
+        got = bytes(root.get_data())
+    except Exception as e:
+        return [(f"writer-interleaving-exc:{norm_msg(e)}", f"{type(e).__name__}: {e}")]
+    exp = b"".join(ref_root)
+    if got != exp:
+        out.append(("writer-interleaving-octets", f"writers used out of strict nesting order produced {got[:40].hex()} expected {exp[:40].hex()}"))
+    return out
+
+
+def chk_failed_read_keeps_position(r):
+    """A read that raises ValueError (wrong expected tag) must not consume anything: the value is still there."""
+    out = []
+    v = r.randbytes(r.choice([0, 1, 5]))
+    data = _tlv(0, False, 4, v) + _tlv(0, False, 2, b"\x07")
+    rd = A.ASN1Reader(data)
+    for attempt in (lambda: rd.read_integer(), lambda: rd.read_boolean(), lambda: rd.read_sequence(), lambda: rd.read_octet_string(tag=A.ASN1Tag(A.TagClass.CONTEXT_SPECIFIC, 3, False))):
+        try:
+            attempt()
+            return [("mismatched-read-accepted", "a read with the wrong expected tag returned a value")]
+        except ValueError:
+            pass
+        except Exception as e:
+            return [(f"mismatched-read-exc:{type(e).__name__}", f"{type(e).__name__}: {e}")]
+    try:
+        if rd.read_octet_string() != v or rd.read_integer() != 7 or rd.get_remaining_data() != b"":
+            out.append(("failed-read-moved-the-reader", "after reads that raised ValueError the next read did not return the value that was still unread"))
+    except Exception as e:
+        out.append(("failed-read-moved-the-reader", f"after reads that raised ValueError: {type(e).__name__}: {e}"))
     return out
 
 
@@ -450,6 +518,14 @@ def run_case(kind, args):
         return chk_tree(_untree(args[0]), bytes(args[1]))
     if kind == "writable":
         return chk_writable_input(args[0], args[1])
+    if kind == "winter":
+        import random as _random
+
+        return chk_writer_interleaving(_random.Random(args[0]))
+    if kind == "failedread":
+        import random as _random
+
+        return chk_failed_read_keeps_position(_random.Random(args[0]))
     if kind == "hdrtrunc":
         import random as _random
 
@@ -545,6 +621,8 @@ def run_shard(ctx: Ctx, acc: Acc):
         do("writable", (gv.g_int(r), i % 2), True, "writable-input")
         do("truncated", (r.randrange(1 << 60),), True, "truncated-with-header")
         do("hdrtrunc", (r.randrange(1 << 60),), True, "header-truncations")
+        do("winter", (r.randrange(1 << 60),), True, "writer-interleavings")
+        do("failedread", (r.randrange(1 << 60),), True, "failed-read-keeps-position")
         if i % 2 == 0:
             do("readerops", (r.randrange(1 << 60), r.choice([2, 3, 5, 9]), r.choice(TRAILERS)), True, "reader-op-sequences")
         if i % 4 == 0:
